@@ -333,7 +333,7 @@ Qed.
 
 (* an approved request is not re-judged: once an attempt was made, only the attempt limit can reject it *)
 Theorem approve_switchover_not_rejudged cfg sw active cs :
-  0 < sw_run_count sw ->
+  (0 < sw_run_count sw \/ sw_started sw = true) ->
   (is_failover sw = true \/ c_switchover_max_attempts cfg <= 0 \/ sw_run_count sw < c_switchover_max_attempts cfg) ->
   approve_switchover cfg sw active cs = None.
 Proof.
@@ -343,20 +343,21 @@ Proof.
     - rewrite Hl. reflexivity.
     - assert (0 <? c_switchover_max_attempts cfg = false) as -> by (apply Z.ltb_ge; exact Hl). rewrite andb_false_r. reflexivity.
     - assert (c_switchover_max_attempts cfg <=? sw_run_count sw = false) as -> by (apply Z.leb_gt; exact Hl). rewrite andb_false_r. reflexivity. }
-  assert (0 <? sw_run_count sw = true) as -> by (apply Z.ltb_lt; exact Hr). reflexivity.
+  destruct Hr as [Hr|Hr]; [assert (0 <? sw_run_count sw = true) as -> by (apply Z.ltb_lt; exact Hr); reflexivity|].
+  rewrite Hr. rewrite orb_true_r. reflexivity.
 Qed.
 
 (* a fresh request is judged by the quorum of alive replicas in the published list only *)
 Theorem approve_switchover_fresh cfg sw active cs :
-  sw_run_count sw = 0 -> (is_failover sw = true \/ c_switchover_max_attempts cfg <= 0 \/ 0 < c_switchover_max_attempts cfg) ->
+  sw_run_count sw = 0 -> sw_started sw = false -> (is_failover sw = true \/ c_switchover_max_attempts cfg <= 0 \/ 0 < c_switchover_max_attempts cfg) ->
   (approve_switchover cfg sw active cs = None <->
    check_quorum (c_semi_sync cfg) (c_wait_count cfg) (Z.of_nat (length active)) (count_alive_ha_slaves_within active cs) = true).
 Proof.
-  intros Hr _. unfold approve_switchover. rewrite Hr.
+  intros Hr Hst _. unfold approve_switchover. rewrite Hr, Hst.
   assert (negb (is_failover sw) && (0 <? c_switchover_max_attempts cfg) && (c_switchover_max_attempts cfg <=? 0) = false) as ->.
   { destruct (0 <? c_switchover_max_attempts cfg) eqn:E; [|rewrite andb_false_r; reflexivity].
     apply Z.ltb_lt in E. assert (c_switchover_max_attempts cfg <=? 0 = false) as -> by (apply Z.leb_gt; exact E). rewrite andb_false_r. reflexivity. }
-  cbn [Z.ltb Z.compare]. destruct (check_quorum _ _ _ _); split; intros H; try reflexivity; discriminate.
+  cbn [Z.ltb Z.compare orb]. destruct (check_quorum _ _ _ _); split; intros H; try reflexivity; discriminate.
 Qed.
 
 (* FailSwitchover: one coordination write - the SAME request with the attempt counted and a failed result *)
